@@ -567,7 +567,7 @@ def instances(tier):
     for k in ((1, 3) if tier == 'quick' else (1, 2, 3, 4, 5)):
         inst.append(dict(label='sixnode-rotation[k=%d]' % k, body=body_sixnode, params={'k': k}))
     inst.append(dict(label='sixnode-mirror', body=body_sixnode, params={'k': 0, 'mirror': True}))
-    lays = ['three-a2-a3-ur', 'six-hole', 'seven-mixed', 'ring-no-centre', 'seven-alt', 'five-alt'] + \
+    lays = ['three-a2-a3-ur', 'six-hole', 'seven-mixed', 'ring-no-centre', 'seven-alt', 'five-alt', 'three-a3-b3-a2'] + \
         (['three-a3-dd-u6', 'two-a2-a3', 'nineteen-sparse'] if tier == 'thorough' else [])
     for l in lays:
         # the tables of the pattern turned t times against those of the pattern turned t + 1 times, all six turns (a slip that depends on the
